@@ -6,6 +6,7 @@ package main
 // Driver: lean/Rv/Drv/CachePipe.lean (specification Rv.Spec.Cache.dupFlightOk).
 //
 //   !dupflight <kind> <store> <fail> <n> <returned> <nok> <nerr> <gets> <laterReturned> <laterHit> <laterOk> <laterGets>
+//   !ctxdead <store> <variant> <ownerErr> <joinedReturned> <laterReturned> <laterOk>             (see ctxDeadEpisode)
 //   !mgetown <store> <fail>:<w> <wReturned> <wOk> <aOk> <laterHit> <laterOk> <fetchesOfA1>      (see mgetOwnEpisode)
 //
 // kind: dm2 = (GET a, GET a); dm3 = (GET a, GET b, GET a); st2 = (GET a, GET a) tagged ToStaticTTL
@@ -349,6 +350,15 @@ func runFlightDup(c *Ctx) {
 			}
 		}
 	}
+	// a caller whose own ctx ends must not leave a dead pending entry behind
+	for r := 0; r < rounds; r++ {
+		for _, simple := range []bool{false, true} {
+			for _, v := range []string{"pre-cancel", "pre-deadline", "abandon-null", "abandon-execabort", "abandon-ok"} {
+				tc := ctxDeadCase{simple: simple, variant: v}
+				runs = append(runs, func() dupOut { return ctxDeadEpisode(tc) })
+			}
+		}
+	}
 	outs := make([]dupOut, len(runs))
 	sem := make(chan struct{}, 8)
 	var wg sync.WaitGroup
@@ -591,6 +601,166 @@ func mgetOwnEpisode(tc mgetCase) (out dupOut) {
 	}
 	if bReturned && bRes.err == "" {
 		failf("cachee2e:harness:mgetown-b-did-not-fail", op, "%s: B returned %+v", desc, bRes)
+	}
+	return
+}
+
+// ---------------------------------------------------------------- the owner of a fetch gives up (its ctx ends)
+
+type ctxDeadCase struct {
+	simple  bool
+	variant string // pre-cancel | pre-deadline | abandon-null | abandon-execabort | abandon-ok
+}
+
+// ctxDeadEpisode: the owner's DoCache(ctx, GET a) returns with its ctx error
+//   - pre-*:     the ctx is already cancelled / past its deadline when DoCache is called;
+//   - abandon-*: the request is on the server, its EXEC reply is held; an outside caller W (context.Background)
+//     has joined the flight; the owner's ctx is cancelled, the owner returns, THEN the held reply is
+//     released: EXEC null / -EXECABORT / the normal successful reply.
+//
+// Nothing may be left pending: W returns (2.5 s watchdog after the release) and a later DoCache(GET a) returns
+// in time with the value.
+func ctxDeadEpisode(tc ctxDeadCase) (out dupOut) {
+	store := storeName(tc.simple)
+	desc := fmt.Sprintf("ctxdead %s %s", store, tc.variant)
+	failf := func(key, op, format string, args ...any) {
+		out.fails = append(out.fails, [3]string{key, op, fmt.Sprintf(format, args...)})
+	}
+	srv := fakeredis.New(fakeredis.Options{})
+	defer srv.Close()
+	client, err := pipeClient(srv, tc.simple)
+	if err != nil {
+		failf("cachee2e:newclient", desc, "%v", err)
+		return
+	}
+	hung := false
+	defer func() {
+		if hung {
+			go client.Close()
+		} else {
+			client.Close()
+		}
+	}()
+	ctx := context.Background()
+	ttl := time.Minute
+	client.Do(ctx, client.B().Set().Key("a").Value("a|1").Build())
+	read := func(c context.Context) (string, error) {
+		return client.DoCache(c, client.B().Get().Key("a").Cache(), ttl).ToString()
+	}
+	isCtxErr := func(err error) bool {
+		return errors.Is(err, context.Canceled) || errors.Is(err, context.DeadlineExceeded)
+	}
+	ownerErr, joinedReturned := false, true
+	var ownerVal string
+	var ownerE, wE error
+	var wVal string
+	if strings.HasPrefix(tc.variant, "pre-") {
+		octx, cancel := context.WithCancel(ctx)
+		if tc.variant == "pre-deadline" {
+			cancel()
+			octx, cancel = context.WithDeadline(ctx, time.Now().Add(-time.Second))
+		}
+		cancel()
+		ownerVal, ownerE = read(octx)
+		ownerErr = isCtxErr(ownerE)
+		out.hits = append(out.hits, fmt.Sprintf("ctxdead:%s:owner-request-on-the-wire=%d", tc.variant, countGets(srv, "a")))
+	} else {
+		gate := make(chan struct{})
+		released := false
+		release := func() {
+			if !released {
+				released = true
+				close(gate)
+			}
+		}
+		defer release()
+		isExec := fakeredis.Cmd("EXEC")
+		rule := fakeredis.Rule{Match: isExec, Times: 1, Gate: gate}
+		switch tc.variant {
+		case "abandon-null":
+			rule.Exec, rule.Reply = true, []byte("_\r\n")
+		case "abandon-execabort":
+			rule.Exec, rule.Err = true, "EXECABORT Transaction discarded because of previous errors."
+		}
+		srv.AddRule(rule)
+		octx, cancel := context.WithCancel(ctx)
+		defer cancel()
+		oDone, wDone := make(chan struct{}), make(chan struct{})
+		go func() { ownerVal, ownerE = read(octx); close(oDone) }()
+		reached := srv.WaitFor(5*time.Second, func() bool {
+			for _, e := range srv.Log() {
+				if isExec(e.Conn, e.Argv) {
+					return true
+				}
+			}
+			return false
+		})
+		if !reached {
+			out.retry = true
+			failf("cachee2e:harness:batch-not-sent", desc, "the owner's request did not reach the server")
+			return
+		}
+		started := make(chan struct{})
+		go func() { close(started); wVal, wE = read(context.Background()); close(wDone) }()
+		<-started
+		time.Sleep(40 * time.Millisecond) // gives W time to join; a W that was too late is recognised below
+		getsPending := countGets(srv, "a")
+		cancel() // the owner gives up ...
+		select {
+		case <-oDone:
+			ownerErr = isCtxErr(ownerE)
+		case <-time.After(dupWatchdog):
+			hung = true
+		}
+		release() // ... and only then its reply arrives
+		if !hung {
+			select {
+			case <-wDone:
+			case <-time.After(dupWatchdog):
+				joinedReturned, hung = false, true
+			}
+		}
+		if !hung && getsPending <= 1 && countGets(srv, "a") > getsPending {
+			out.retry = true // W only looked at the cache after the owner had cancelled its flight and fetched on its own
+		}
+		if joinedReturned && !hung {
+			switch {
+			case wE != nil:
+				out.hits = append(out.hits, fmt.Sprintf("ctxdead:%s:W=error(%s)", tc.variant, strings.Join(strings.Fields(wE.Error()), "-")))
+			default:
+				out.hits = append(out.hits, fmt.Sprintf("ctxdead:%s:W=value", tc.variant))
+			}
+		}
+	}
+	before := countGets(srv, "a")
+	lctx, lcancel := context.WithTimeout(ctx, dupWatchdog)
+	lv, lerr := read(lctx)
+	lcancel()
+	laterReturned := !errors.Is(lerr, context.DeadlineExceeded)
+	laterOk := lerr == nil && lv == "a|1"
+	if laterReturned {
+		out.hits = append(out.hits, fmt.Sprintf("ctxdead:%s:later-read-fetches=%d", tc.variant, countGets(srv, "a")-before))
+	} else {
+		hung = true
+	}
+	op := fmt.Sprintf("!ctxdead %s %s %s %s %s %s", store, tc.variant, b01(ownerErr), b01(joinedReturned), b01(laterReturned), b01(laterOk))
+	out.line = op
+	detail := fmt.Sprintf("owner returned %q err %v; joined caller returned %q err %v; later read returned %q err %v", ownerVal, ownerE, wVal, wE, lv, lerr)
+	switch {
+	case !joinedReturned:
+		out.timeout = true
+		failf("cachee2e:flight-hang:ctx-abandoned", op, "%s: the caller that had joined the flight did not return within %v after the abandoned request had been answered; %s", desc, dupWatchdog, detail)
+		if !laterReturned {
+			failf("cachee2e:flight-dead:ctx-abandoned", op, "%s: a later DoCache(GET a) did not return within %v (it waits on an entry nobody will complete); %s", desc, dupWatchdog, detail)
+		}
+	case !laterReturned:
+		out.timeout = true
+		failf("cachee2e:flight-dead:ctx-abandoned", op, "%s: a later DoCache(GET a) did not return within %v (it waits on an entry nobody will complete); %s", desc, dupWatchdog, detail)
+	case hung:
+		out.timeout = true
+		failf("cachee2e:flight-hang:ctx-abandoned", op, "%s: the owner did not return within %v after its ctx was cancelled; %s", desc, dupWatchdog, detail)
+	case !(ownerErr && laterOk):
+		failf("cachee2e:flight-result:ctx-abandoned", op, "%s: %s", desc, detail)
 	}
 	return
 }
